@@ -138,6 +138,8 @@ def run(scn):
   ep = net.add_endpoint('h0', 1000, server, scn['latency'])
   tracker = CallTracker(default_timeout=600.0)
   tracker.id_from_args = lambda args, kwargs: srv.call_id_of(None, args)
+  from sim.calls import TransportDeliveries
+  deliveries = TransportDeliveries()
   tp = SocketTransportSink.Builder()
   sp = Ser.Builder()
   sp.next_provider = tp
@@ -277,6 +279,11 @@ def run(scn):
   from sim import child as _child
   if 'n_ops_before_probe' not in dir():
     n_ops_before_probe = len(net.oplog)
+  # at the transport's own interface: no request is handed more than one response
+  for n, kinds in deliveries.doubles():
+    REC.violation('C08', 'failed_twice', 'the transport handed one request %d responses: %s' % (n, kinds),
+                  dict(sig, at_transport=True))
+    break
   REC.sample = {'stack': stack, 'directive': scn.get('directives'), 'ops': scn['ops'][:5],
                 'outcomes': [(c.id, (c.outcome() or ('pending', None))[1] if (c.outcome() or ('x',))[0] == 'exc' else
                               ('value' if c.outcome() else 'pending')) for c in tracker.order]}
